@@ -28,12 +28,6 @@ impl NonZeroUsize {
 
 pub assume_specification<T, A: core::alloc::Allocator>[Vec::<T, A>::capacity](v: &Vec<T, A>) -> (r: usize)
     ensures r >= v@.len();
-pub assume_specification<T: Clone, A: core::alloc::Allocator>[Vec::<T, A>::resize](v: &mut Vec<T, A>, new_len: usize, value: T)
-    ensures
-        final(v)@.len() == new_len,
-        forall|i: int| 0 <= i < new_len ==> #[trigger] final(v)@[i] == (if i < old(v)@.len() { old(v)@[i] } else { value }),
-        // (clone of a u8 is the value itself; only used at T = u8)
-;
 pub assume_specification[usize::div_ceil](a: usize, b: usize) -> (r: usize)
     requires b != 0
     ensures r as int == (a as int + b as int - 1) / (b as int);
